@@ -1036,6 +1036,12 @@ inductive EmitFn
 	for _, name := range vmiEmitFns {
 		fmt.Fprintf(&b, "  | .%s => %s\n", name, name)
 	}
+	// decisions of emitter_expressions.go / emitter_util.go (gen_vmint_emitter.go)
+	tables, err := genEmitterTables(repo, vmiEmitFns, vmiConds)
+	if err != nil {
+		return "", err
+	}
+	b.WriteString(tables)
 	b.WriteString("\nend ScriggoV.Gen.VMInt\n")
 	return b.String(), nil
 }
